@@ -206,7 +206,7 @@ def run(ctx):
             big = sc.add({"kind": "blob", "data": b"B" * rng.choice([4096, 20000])})
             lnk = sc.add({"kind": "blob", "data": b"target"})
             t_many = sc.add({"kind": "tree", "entries": [(0o100644, b"f%d" % k, b) for k, b in enumerate(tiny)]})
-            t_big = sc.add({"kind": "tree", "entries": [(0o100644, b"big", big)]})
+            t_big = sc.add({"kind": "tree", "entries": [(0o100644, rng.choice([b"big", b"50%_off", b"%d%s"]), big)]})
             t_links = sc.add({"kind": "tree", "entries": [(0o120000, b"l%d" % k, lnk) for k in range(7)] + [(0o160000, b"sub", b"\x22" * 20)]})
             t_deep = sc.add({"kind": "tree", "entries": [(0o40000, b"d", t_many)]})
             trees = [t_many, t_big, t_links, t_deep]
@@ -214,9 +214,26 @@ def run(ctx):
             prev = None
             for k, t in enumerate(trees):
                 prev = sc.add({"kind": "commit", "tree": t, "parents": [prev] if prev is not None else [], "date": 1000000000 + k})
-            sc.refs.append((b"refs/heads/main", prev))
+            refname = rng.choice([b"refs/heads/main", b"refs/heads/100%done", b"refs/heads/a%sb%d", b"refs/heads/pct%"])
+            sc.refs.append((refname, prev))
             sc.compute()
             order = sc.enum_random([prev], rng)
+            # with full names the footnote texts of the table are the descriptions of JSON v1 (and v2), byte for byte — also
+            # when they contain '%'
+            rcf, outf, errf, _ = eng.run_fake(sc, order, [], [], extra_args=["-v", "--no-progress", "--names=full"])
+            rcj, outj, errj, _ = eng.run_fake(sc, order, [], [], extra_args=["--json", "--no-progress", "--names=full"])
+            if rcf == 0 and rcj == 0:
+                jf = json.loads(outj)
+                want_notes = []
+                for pkey, vkey, kind in _c08.SLOTS:
+                    if jf.get(pkey) and jf[pkey] not in want_notes:
+                        want_notes.append(jf[pkey])
+                got_notes = [m.group(1).decode("utf-8", "replace") for m in re.finditer(rb"(?m)^\[\d+\] +(.*)$", outf)]
+                if got_notes != want_notes:
+                    res.violations.append(vlib.Violation("the table's footnotes differ from the JSON v1 citations (names=full)", {"reference": refname.decode(), "scenario": "four commits, trees maximal in different metrics"},
+                                                         expected=want_notes, observed=got_notes))
+            else:
+                res.violations.append(vlib.Violation("a run failed", {"reference": refname.decode()}))
             outs = {}
             for fmt in (["--json"], ["--json", "--json-version=2"], ["-v"]):
                 rc, out, err, log = eng.run_fake(sc, order, [], [], extra_args=fmt + ["--no-progress", "--names=hash"])
